@@ -3,9 +3,6 @@
 From Tetl Require Import Lib.Base C08.Model C08.Spec C08.Core C04.Model C04.Spec C04.Inv.
 Local Open Scope Z_scope.
 
-(* std::string::replace(pos, count, str) *)
-Definition s_replace (l : list Z) (pos count : Z) (x : list Z) : list Z :=
-  take pos l ++ x ++ drop (pos + Z.min count (slen l - pos)) l.
 
 (* KF-C04-replace-inplace: "abcdef".replace(1, 2, "xyz") overwrites two characters in place ("axydef");
    std::string gives "axyzdef" *)
@@ -19,7 +16,7 @@ Proof. split; vm_compute; reflexivity. Qed.
 
 Lemma replace_refuted :
   exists s pos count src s', inv s /\ replace_m s pos count src = Ok s' /\
-    contents s' <> s_replace (contents s) pos count src.
+    Some (contents s') <> s_replace (contents s) pos count src.
 Proof.
   exists w_abcdef, 1, 2, [120; 121; 122], w_axydef. split; [|split].
   - unfold inv, cap_ok. vm_compute. repeat split; discriminate.
